@@ -6,7 +6,7 @@
 //   p = prs(t)                 (default mode; strict mode too when o is a subset of FORMAT|SORT_DICT_KEYS)
 //   * parse must not throw
 //   * p walked through the public accessors must have the same shape, int/float kinds, exact ints,
-//     exact byte strings/keys, floats equal at six significant digits      (independent of operator==)
+//     exact byte strings/keys, floats equal at six significant digits, zeros with the same sign bit (independent of operator==)
 //   * float-free trees: p == v with phosg's own operator== ; trees with floats: p == parse(text with
 //     sorted keys) (same doubles, different key order)
 //   * ser(p, o|SORT) == ser(v, o|SORT)
@@ -228,7 +228,10 @@ static string walk_cmp(const Node& n, const JSON& j, string& where, const string
     case Node::F: {
       if (!j.is_float()) return bad("kind-differs", j.is_int() ? "float came back as int" : "expected float");
       double g = j.as_float();
-      if (n.f == 0 && g == 0) return "";
+      if (n.f == 0 && g == 0) {
+        if (signbit(n.f) != signbit(g)) return bad("value-differs", fmt("zero %a came back as %a (sign bit lost)", n.f, g));
+        return "";
+      }
       if (sig6(g) != sig6(n.f)) return bad("value-differs", fmt("float %a (%.17g) came back as %a (%.17g)", n.f, n.f, g, g));
       return "";
     }
